@@ -30,6 +30,11 @@ CLAIMED = {
         note="As C03; log and libm pow results recorded from the implementation.",
         technique="Rocq proof over R of a model regenerated from source + bit-exact correspondence (vm_compute on PrimFloat)",
         ref="DESIGN.md §3 C11"),
+    "C07": dict(
+        text="Hand model of Consequent.load / Consequent.modify / Rule.trigger (as written, incl. the known leak of hedged degrees) with theorems for arbitrary conclusion lists: each enabled conclusion adds exactly one activated term carrying its term, the block's implication and the sanitised degree; nothing is added for disabled variables or rules; the running-degree characterisation of the code as written, the documented spec under the leak-free condition, its kernel-checked refutation in general (known finding), and the full spec + independence for the repaired loop; sanitize NaN/-inf -> 0, +inf -> 1. Exact correspondence of fuzzy-output contents on real rules (scalar and batch degrees, special values, all orders, flags) and a direct per-conclusion oracle.",
+        note="Coq kernel + vm_compute; stdlib Reals axioms where R is used; hand model tied by correspondence only; libm pow recorded from the implementation; known finding modify:hedged-degree-leaks is reported as KNOWN-FINDING.",
+        technique="Rocq proof (induction over conclusions) about a hand model + exact correspondence on generated rules",
+        ref="DESIGN.md §3 C07"),
 }
 PENDING_REASON = "check under construction in this round (planned in DESIGN.md §3); not claimed until its theorems and correspondence run"
 
